@@ -33,3 +33,4 @@ func verifTrackStop()
 func verifMapReverse(on bool)
 func refParent(l, r Hash) Hash
 func verifAssertKF(c bool, id string, tag string, pred bool)
+func verifTrackStartObj(name string, recv interface{})
